@@ -1,5 +1,6 @@
 //! Correspondence harness: runs the real skim code in-process.
 //! stdin: one request per line `<prop>\t<case>`; stdout: one answer line per request.
+mod c15;
 mod c18;
 mod util;
 
@@ -8,6 +9,7 @@ use std::panic;
 
 fn dispatch(prop: &str, case: &str) -> String {
     match prop {
+        "C15" => c15::run(case),
         "C18" => c18::run(case),
         _ => "error:unknown-property".into(),
     }
